@@ -177,17 +177,27 @@ func tableOf(kind string, e *yang.EnumType, h *handed) string {
 	out := "names=" + strings.Join(names, ",") + " values=" + strings.Join(values, ",") +
 		" namemap=" + strings.Join(nm, ",") + " valuemap=" + strings.Join(vm, ",")
 	bad := func(what string) string { return "inconsistent-views(" + what + "): " + out }
-	// the views are copies of the maps
+	// the views are copies of the maps.  Every lookup is made with the comma-ok form and names are printed
+	// quoted: an entry that is absent and an entry that holds the zero value (the name "", the value 0) are
+	// different things.
 	if len(m) != len(e.ToInt) || len(h.names) != len(e.ToInt) || len(h.values) != len(e.ToInt) {
 		return bad(fmt.Sprintf("NameMap/Names/Values have %d/%d/%d entries, ToInt has %d", len(m), len(h.names), len(h.values), len(e.ToInt)))
 	}
 	for n, val := range e.ToInt {
 		if got, ok := m[n]; !ok || got != val {
-			return bad("NameMap differs from ToInt at " + n)
+			return bad(fmt.Sprintf("NameMap differs from ToInt at %q", n))
 		}
 		if e.Value(n) != val || !e.IsDefined(n) {
-			return bad("Value/IsDefined differ from ToInt at " + n)
+			return bad(fmt.Sprintf("Value/IsDefined differ from ToInt at %q", n))
 		}
+	}
+	// Names() lists exactly the names of NameMap, each once
+	seen := map[string]bool{}
+	for _, n := range h.names {
+		if _, ok := m[n]; !ok || seen[n] {
+			return bad(fmt.Sprintf("Names() lists %q, which NameMap does not hold / twice", n))
+		}
+		seen[n] = true
 	}
 	if len(v) != len(e.ToString) {
 		return bad(fmt.Sprintf("ValueMap has %d entries, ToString has %d", len(v), len(e.ToString)))
@@ -202,16 +212,20 @@ func tableOf(kind string, e *yang.EnumType, h *handed) string {
 	}
 	// every name's value is named (by that name, unless two bits share the position)
 	for n, val := range m {
-		if _, ok := v[val]; !ok {
-			return bad("value of " + n + " is missing from ValueMap")
+		got, ok := v[val]
+		if !ok {
+			return bad(fmt.Sprintf("value %d of %q is missing from ValueMap", val, n))
+		}
+		if kind == "e" && got != n {
+			return bad(fmt.Sprintf("name->value and value->name are not mutually inverse: %q has value %d, value %d is named %q (two names share one value)", n, val, val, got))
 		}
 	}
 	if kind == "e" && len(m) != len(v) {
 		return bad(fmt.Sprintf("enumeration with %d names and %d named values", len(m), len(v)))
 	}
 	for k, n := range v {
-		if m[n] != k {
-			return bad("ValueMap and NameMap are not inverse at " + strconv.FormatInt(k, 10))
+		if got, ok := m[n]; !ok || got != k {
+			return bad(fmt.Sprintf("name->value and value->name are not mutually inverse: value %d is named %q, which NameMap does not hold with that value", k, n))
 		}
 	}
 	return out
@@ -252,6 +266,28 @@ func quoteYang(raw []byte) string {
 	return sb.String()
 }
 
+var plainName = regexp.MustCompile(`^[A-Za-z_][A-Za-z0-9_.-]*$`)
+
+// yangName writes a member name as a YANG argument: identifiers as they are (the texts of the cases over
+// {a, b, c} are what they always were), everything else - the empty name, blanks, NUL, digits, non-ASCII,
+// very long names - as a double-quoted string.
+func yangName(n string) string {
+	if plainName.MatchString(n) {
+		return n
+	}
+	return quoteYang([]byte(n))
+}
+
+// splitMember splits a written member "name:value" at the LAST colon (values are decimal integers; names are
+// arbitrary byte strings).
+func splitMember(m string) (string, string) {
+	i := strings.LastIndex(m, ":")
+	if i < 0 {
+		return m, ""
+	}
+	return m[:i], m[i+1:]
+}
+
 var subStatements = map[string]string{
 	"sc": "status current;", "sd": "status deprecated;", "so": "status obsolete;",
 	"de": "description \"d\";", "re": "reference \"r\";",
@@ -278,16 +314,16 @@ func yangFiles(c tcase) (files [][2]string, firstLine int) {
 		}
 		switch {
 		case c.Vals[i] == "nil" && sub == "":
-			mem.WriteString(mk + " " + c.Names[i] + ";\n")
+			mem.WriteString(mk + " " + yangName(c.Names[i]) + ";\n")
 		case c.Vals[i] == "nil":
-			mem.WriteString(mk + " " + c.Names[i] + " { " + sub + "}\n")
+			mem.WriteString(mk + " " + yangName(c.Names[i]) + " { " + sub + "}\n")
 		default:
 			raw, _ := lib.UnHex(c.Vals[i])
 			val := vk + " " + quoteYang(raw) + "; "
 			if before {
-				mem.WriteString(mk + " " + c.Names[i] + " { " + sub + val + "}\n")
+				mem.WriteString(mk + " " + yangName(c.Names[i]) + " { " + sub + val + "}\n")
 			} else {
-				mem.WriteString(mk + " " + c.Names[i] + " { " + val + sub + "}\n")
+				mem.WriteString(mk + " " + yangName(c.Names[i]) + " { " + val + sub + "}\n")
 			}
 		}
 	}
@@ -310,8 +346,8 @@ func yangFiles(c tcase) (files [][2]string, firstLine int) {
 		if len(c.Twin) > 0 {
 			tw := "type " + tn + " {"
 			for _, nv := range c.Twin {
-				kv := strings.SplitN(nv, ":", 2)
-				tw += " " + mk + " " + kv[0] + " { " + vk + " " + kv[1] + "; }"
+				mn, mv := splitMember(nv)
+				tw += " " + mk + " " + yangName(mn) + " { " + vk + " " + mv + "; }"
 			}
 			others = append(others, tw+" }\n")
 		}
@@ -341,8 +377,8 @@ func yangFiles(c tcase) (files [][2]string, firstLine int) {
 	case "n0", "nm", "nv", "n+":
 		tw := "type " + tn + " {"
 		for _, nv := range c.Twin {
-			kv := strings.SplitN(nv, ":", 2)
-			tw += " " + mk + " " + kv[0] + " { " + vk + " " + kv[1] + "; }"
+			mn, mv := splitMember(nv)
+			tw += " " + mk + " " + yangName(mn) + " { " + vk + " " + mv + "; }"
 		}
 		pre = head + " leaf l { type union {\n" + tw + " }\n"
 		post = "\ntype string;\n } } }\n"
@@ -478,10 +514,10 @@ func expectDump(members []string) string {
 	var ms []nv
 	byVal := map[int64]string{}
 	for _, m := range members {
-		kv := strings.SplitN(m, ":", 2)
-		v, _ := strconv.ParseInt(kv[1], 10, 64)
-		ms = append(ms, nv{kv[0], v})
-		byVal[v] = kv[0] // the later of two bits on one position names it
+		mn, mv := splitMember(m)
+		v, _ := strconv.ParseInt(mv, 10, 64)
+		ms = append(ms, nv{mn, v})
+		byVal[v] = mn // the later of two bits on one position names it
 	}
 	sort.Slice(ms, func(i, j int) bool { return ms[i].n < ms[j].n })
 	var names, nm, values, vm []string
@@ -754,7 +790,11 @@ func judge(c tcase, g, s string) (bool, string) {
 		// per-call blocks: every block must be self-consistent; the table after EVERY call, with the errors
 		// collected so far, is judged against the RFC assignment of the calls made so far
 		if strings.Contains(g, "inconsistent-views") {
-			return false, "a view read back between two calls disagrees with the maps or the views are not mutually inverse: " + g
+			at := g[strings.Index(g, "inconsistent-views"):]
+			if k := strings.Index(at, stepSep); k >= 0 {
+				at = at[:k]
+			}
+			return false, fmt.Sprintf("after call %d of %d a view read back disagrees with the maps or name->value and value->name are not mutually inverse (views_inverse; names in hex below, - is the empty name): %s", strings.Count(g[:strings.Index(g, "inconsistent-views")], stepSep)+1, len(c.Names), at)
 		}
 		blocks := strings.Split(g, stepSep)
 		specs := strings.Split(s, stepSep)
@@ -787,6 +827,9 @@ func judgeTable(c tcase, g, s string) (bool, string) {
 	}
 	if strings.HasPrefix(g, "near-twin-table-changed") {
 		return false, "the table of another member of the union changed: " + g
+	}
+	if strings.HasPrefix(g, "inconsistent-views") {
+		return false, "the views of the table disagree with its maps or, for an enumeration, name->value and value->name are not mutually inverse (views_inverse; names in hex below, - is the empty name): " + g
 	}
 	if !strings.HasPrefix(g, "errs=") {
 		return false, "Go did not produce a result: " + g
@@ -852,6 +895,40 @@ var opsVals = []string{"-", "0", "1", "-1", "-5", "7", "-2147483648", "-21474836
 var oddVals = []string{"0x10", "010", "0b11", "0o7", "1_0", "+5", "-0", " 7 ", "\t3", "abc", "", "1.0", "+", "-", "0x7fffffff", "0x80000000", "0xffffffff",
 	"0x100000000", "-0x80000000", "-0x80000001", "00", "08", "1e3", "18446744073709551616", "-18446744073709551615", "-9223372036854775809", "2147483647 ", "\u0663", "\u00a05", "5\u2003"}
 
+// oddNames: the degenerate and look-alike member names a table keyed by name (and a value->name view whose
+// zero value is a name) is sensitive to.  For the model (names are byte lists) and for RFC 7950 they are
+// names like any other: distinct byte strings are distinct names.
+//
+//	the empty name, one blank, NUL alone (look-alikes of "no name");
+//	a / A (case), "a " (trailing blank), "a\x00" (trailing NUL), b (ordinary);
+//	U+00E9 and e + U+0301 (one character in the two Unicode normalisation forms);
+//	two names of 300 bytes that differ in the last byte only;
+//	names that are decimal numbers - the text of the values the members of these lists hold: 0, 1, -1, 7,
+//	2147483647 - and 00 (another spelling of 0).
+var oddNames = []string{"", " ", "\x00", "a", "A", "a ", "a\x00", "b", "\u00e9", "e\u0301",
+	strings.Repeat("a", 300), strings.Repeat("a", 299) + "b", "0", "1", "-1", "7", "2147483647", "00"}
+
+// oddNameVals: automatic, and the explicit values whose text is in oddNames.
+var oddNameVals = []string{"-", "0", "1", "7", "-1", "2147483647"}
+
+// oddTriples: value patterns of the lists of three - a later member asks for the value an earlier one holds
+// (explicitly or automatically; first/middle, first/last, middle/last), the running maximum, the end of the range.
+var oddTriples = [][3]string{
+	{"-", "-", "-"}, {"-", "0", "-"}, {"0", "-", "0"}, {"-", "-", "0"}, {"-", "-", "1"}, {"7", "-", "7"}, {"7", "-", "8"},
+	{"-1", "-", "0"}, {"0", "1", "1"}, {"1", "-", "-"}, {"2147483647", "-1", "-"}, {"-", "2147483646", "-"},
+}
+
+// oddVal writes a value of the odd-name lists for the path: ops "-" / decimal, text "nil" / hex of the decimal.
+func oddVal(path, v string) string {
+	if path == "ops" {
+		return v
+	}
+	if v == "-" {
+		return "nil"
+	}
+	return lib.HexS(v)
+}
+
 type choice struct{ name, val string }
 
 func choices(path string) []choice {
@@ -886,9 +963,9 @@ func nearOf(kind, form string, twin []string) (out []string, ok bool) {
 	used := map[int64]bool{}
 	maxAt := -1
 	for i, m := range twin {
-		kv := strings.SplitN(m, ":", 2)
-		names[i] = kv[0]
-		vals[i], _ = strconv.ParseInt(kv[1], 10, 64)
+		mn, mv := splitMember(m)
+		names[i] = mn
+		vals[i], _ = strconv.ParseInt(mv, 10, 64)
 		used[vals[i]] = true
 		if maxAt < 0 || vals[i] > vals[maxAt] {
 			maxAt = i
@@ -1040,6 +1117,7 @@ func main() {
 		typedefToo bool
 		random     bool
 		decorated  bool
+		odd        int // odd-name lists: 2 = leaf (histories a, b) and a seeded quarter of the placements; 3 = leaf and one seeded placement (thorough: everything)
 	}
 	var bases []base
 	enumerated := int64(0)
@@ -1054,6 +1132,13 @@ func main() {
 		{Kind: "b", Path: "ops", Names: []string{"a", "b", "a", "c"}, Vals: []string{"4294967294", "-", "3", "-"}, Edits: []string{"", "nm-a;vm-4294967295"}},
 		{Kind: "b", Path: "ops", Names: []string{"a", "b", "c"}, Vals: []string{"3", "3", "-"}, Edits: []string{"nm+c:9", "vm+3:a;vm+4:q"}},
 	}
+	// the sequences of seeded/C14-l21: a member named "" holds a value (explicitly / automatically) that a
+	// later member asks for
+	corpus = append(corpus,
+		tcase{Kind: "e", Path: "ops", Names: []string{"", "b"}, Vals: []string{"3", "3"}},
+		tcase{Kind: "e", Path: "ops", Names: []string{"one", "", "two", "three"}, Vals: []string{"1", "-", "2", "-"}},
+		tcase{Kind: "e", Path: "text", Names: []string{"one", "", "two", "three"}, Vals: []string{lib.HexS("1"), "nil", lib.HexS("2"), "nil"}},
+		tcase{Kind: "b", Path: "text", Names: []string{"one", "", "two", "three"}, Vals: []string{lib.HexS("1"), "nil", lib.HexS("2"), "nil"}})
 	for _, c := range corpus {
 		bases = append(bases, base{c: c})
 	}
@@ -1154,6 +1239,63 @@ func main() {
 			oddCount++
 		}
 	}
+	// degenerate and look-alike member names (oddNames), both kinds, both paths: every list of one and of two
+	// members over oddNames x oddNameVals; lists of three: every ordered pair of oddNames in every pair of
+	// positions (first/middle, first/last, middle/last) beside the ordinary name c, under every value pattern of
+	// oddTriples; seeded random lists of length 3..8 over oddNames alone
+	oddNameCount := int64(0)
+	nOddRand := 3000
+	if f.Thorough() {
+		nOddRand = 60000
+	}
+	ro := f.Rand(2)
+	for _, kind := range []string{"e", "b"} {
+		for _, path := range []string{"ops", "text"} {
+			add := func(odd int, random bool, names []string, vals []string) {
+				c := tcase{Kind: kind, Path: path, Names: append([]string{}, names...)}
+				for _, v := range vals {
+					c.Vals = append(c.Vals, oddVal(path, v))
+				}
+				bases = append(bases, base{c: c, odd: odd, random: random})
+				oddNameCount++
+			}
+			for _, n1 := range oddNames {
+				for _, v1 := range oddNameVals {
+					add(2, false, []string{n1}, []string{v1})
+					for _, n2 := range oddNames {
+						for _, v2 := range oddNameVals {
+							add(2, false, []string{n1, n2}, []string{v1, v2})
+						}
+					}
+				}
+			}
+			for _, n1 := range oddNames {
+				for _, n2 := range oddNames {
+					for _, pat := range oddTriples {
+						add(3, false, []string{n1, n2, "c"}, pat[:])
+						add(3, false, []string{n1, "c", n2}, pat[:])
+						add(3, false, []string{"c", n1, n2}, pat[:])
+					}
+				}
+			}
+			for i := 0; i < nOddRand; i++ {
+				n := 3 + ro.Intn(6)
+				var names, vals []string
+				for j := 0; j < n; j++ {
+					names = append(names, oddNames[ro.Intn(len(oddNames))])
+					switch ro.Intn(3) {
+					case 0:
+						vals = append(vals, "-")
+					case 1:
+						vals = append(vals, oddNameVals[ro.Intn(len(oddNameVals))])
+					default:
+						vals = append(vals, strconv.Itoa(ro.Intn(n+1))) // small values: collisions with automatic ones
+					}
+				}
+				add(0, true, names, vals)
+			}
+		}
+	}
 	// seeded random longer sequences (length 4..10), both paths
 	nRand := 20000
 	if f.Thorough() {
@@ -1251,6 +1393,22 @@ func main() {
 				}
 			}
 			xs = []tcase{x}
+		case b.odd == 2:
+			orot := -1
+			if !f.Thorough() {
+				orot = r.Intn(4)
+			}
+			hs := []string{"a", "b"}
+			if f.Thorough() {
+				hs = []string{"a", "b", "c", "d"}
+			}
+			xs = expand(b.c, orot < 0 || orot == 0, twinOf(b.c, baseAns[i]), orot, 4, hs)
+		case b.odd == 3:
+			if f.Thorough() {
+				xs = expand(b.c, false, twinOf(b.c, baseAns[i]), -1, 1, []string{"a", "b"})
+			} else {
+				xs = expand(b.c, false, twinOf(b.c, baseAns[i]), r.Intn(16), 16, []string{"a"})
+			}
 		default:
 			// quick tier: the lists of length 3 take every third placement (seeded choice of the third),
 			// shorter ones and the thorough tier take all
@@ -1364,6 +1522,9 @@ func main() {
 	res.Exhaustive = true
 	res.Rule = fmt.Sprintf("complete enumeration of member sequences of length 1..%d (direct Set/SetNext) and 1..3 (YANG text) over 15 boundary values x names {a, b, c} "+
 		"(45 choices per member, so duplicate names and three distinct names both occur), for enumeration and for bits; plus %d cases with odd argument spellings on the text path and %d seeded random sequences of length 4..10 over 6 names. "+
+		"Degenerate and look-alike member names (the empty name, one blank, NUL, a/A, a trailing blank, a trailing NUL, one character in both Unicode normalisation forms, two 300-byte names differing in the last byte, names that are the decimal text of other members' values: 0, 1, -1, 7, 2147483647, 00; written as quoted strings on the text path), for both kinds on both paths: "+
+		"every list of one and two members over these 18 names x {automatic, 0, 1, 7, -1, 2147483647}; lists of three with every ordered pair of them in every pair of positions beside the ordinary name c under 12 value patterns (a later member asks for the value an earlier one holds explicitly or automatically, running maximum, end of range); "+fmt.Sprintf("%d", 4*nOddRand)+" seeded random lists of length 3..8 over them; "+
+		"text lists of one and two in a leaf under the histories a, b (thorough: all four) and a seeded quarter (thorough: all) of the placements, lists of three in a leaf and one seeded placement (thorough: all), random ones in one placement. "+
 		"Every text case goes through four histories of one Modules value - (a) Parse, Process; (b) Parse, Process, Process; (c) Parse, ToEntry(module), Process; (d) Parse, Process, Parse of an unrelated module, Process - "+
 		"and the result is taken after EVERY run (and after the early read in c); sequences up to length 2 and the odd spellings also with the type in a typedef (histories b, d). "+
 		"Every enumerated and odd statement list is also placed (history a; in the quick tier the lists of length 3 take a seeded third of these sixteen placements, in the thorough tier all) in a leaf-list, in a typedef used through a chain of three, in a grouping used twice (both copies read), as member 1 / 2 / 3 of a union beside "+
@@ -1378,10 +1539,20 @@ func main() {
 		"one of 625 combinations, derived from the case and the step - edits once more, after the next call, the objects handed out before it, reads again and continues the call sequence: every reading and every later call must be what the model says for the Set/SetNext sequence WITHOUT the edits (specification: views_inverse, fold_eq_rfc, which speak about the calls alone). "+
 		"On the text path the same is done with the tables reached through Entry.Type.Enum / .Bit after Process: of a leaf, a leaf-list, a typedef use, a chain of typedefs, both uses of a grouping (the views of the first use are edited before the second use is read), every kept member of a union (the near twin's views are edited before the generated member is read), a deviated leaf; "+
 		"then every use is read again, the tables reached through the statement tree (the type statement of the leaf, each typedef and its type statement, the leaf inside the grouping) must hold the Entry's table, and in the histories b, c, d the next Process / read follows the edits. "+
-		fmt.Sprintf("%d corpus call sequences name the caller's edits explicitly (among them the sequence of seeded/C14-k22). ", len(corpus))+
+		fmt.Sprintf("%d corpus sequences (among them the call sequence of seeded/C14-k22 with the caller's edits named explicitly, and the lists of seeded/C14-l21 with a member named by the empty string). ", len(corpus))+
 		"Every Go answer (errors as member index + class, Names, Values, NameMap, ValueMap, point lookups) of every run is compared with the compiled model and judged against the RFC 7950 assignment. "+
 		"distinct_nontrivial = distinct cases with at least two members (the assignment rule is about earlier members)", maxLen, oddCount, nRand)
 	res.Distribution["enumerated_sequences"] = enumerated
+	res.Distribution["lists_over_degenerate_and_lookalike_names"] = oddNameCount
+	var oddShown []string
+	for _, n := range oddNames {
+		if len(n) > 20 {
+			oddShown = append(oddShown, fmt.Sprintf("%q...(%d bytes)", n[len(n)-3:], len(n)))
+		} else {
+			oddShown = append(oddShown, strconv.Quote(n))
+		}
+	}
+	res.Distribution["degenerate_and_lookalike_names"] = oddShown
 	res.Distribution["accessors_whose_results_are_edited"] = coveredAccessors
 	if u := uncoveredAccessors(); len(u) > 0 {
 		res.Distribution["accessors_returning_map_slice_pointer_not_covered"] = u
